@@ -1,5 +1,6 @@
 import PhotVerif.Driver.Segm
 import PhotVerif.Model.Deblend
+import PhotVerif.Model.LabelDtype
 namespace PhotVerif.Driver
 open PhotVerif PhotVerif.Model.Segm PhotVerif.Model.Deblend
 
@@ -34,6 +35,14 @@ def handleDeblend (op : String) (args : List String) : Option String :=
       let (out, dm) := finalize n st (rl == 1)
       some ("ok | " ++ joinSp ((List.range n).map fun p => toString (out.getD p 0)) ++ " | " ++
         (if dm.isEmpty then "-" else joinSp (dm.map fun (p, c) => s!"{p}:{showNats c}")))
+  | "fitdtype", [[kind, bits, v]] => do
+      -- `fitdtype i|u <bits> <value>` → dtype after `_fit_label_dtype`, e.g. "ok u 16", or "ok float"
+      let bits ← parseNat? bits
+      let v ← parseNat? v
+      let signed ← (if kind == "i" then some true else if kind == "u" then some false else none)
+      some (match Model.LabelDtype.fitDtype ⟨signed, bits⟩ v with
+        | some d => s!"ok {if d.signed then "i" else "u"} {d.bits}"
+        | none => "ok float")
   | _, _ => none
 
 end PhotVerif.Driver
